@@ -383,9 +383,34 @@ def decision_table(ctx, fn, max_visits=1, full=None, plain=False, table=False):
     prev = _ACC_ON[0]
     _ACC_ON[0] = bool(table)
     try:
-        return _decision_table(ctx, fn, max_visits, full, plain)
+        rows = _decision_table(ctx, fn, max_visits, full, plain)
     finally:
         _ACC_ON[0] = prev
+    if table:
+        # loop-carried locals (`?name`) by position, not by their source names
+        names = set()
+        for r in rows:
+            names |= set(r.get('state', {}))
+            for f in ('conds', 'effects', 'trace'):
+                for x in r.get(f, []):
+                    names |= set(re.findall(r'\?([A-Za-z_]\w*)', x))
+            names |= set(re.findall(r'\?([A-Za-z_]\w*)', r.get('value', '') or ''))
+        idx = {n: i for i, n in sorted(fn.names.items())}
+        order = sorted((n for n in names if n in idx), key=lambda n: idx[n])
+        if order:
+            ren = {n: 'v%d' % (k + 1) for k, n in enumerate(order)}
+            rx = re.compile(r'\?(%s)\b' % '|'.join(re.escape(n) for n in sorted(ren, key=len, reverse=True)))
+
+            def sub(t):
+                return rx.sub(lambda m: '?' + ren[m.group(1)], t) if isinstance(t, str) else t
+            for r in rows:
+                for f in ('conds', 'effects', 'trace', 'checks'):
+                    if f in r:
+                        r[f] = [sub(x) for x in r[f]]
+                r['value'] = sub(r.get('value', ''))
+                if 'state' in r:
+                    r['state'] = {ren.get(k, k): sub(v) for k, v in r['state'].items()}
+    return rows
 
 
 def _decision_table(ctx, fn, max_visits=1, full=None, plain=False):
